@@ -507,6 +507,7 @@ def main(argv=None):
     ap.add_argument('--jobs', type=int, default=int(os.environ.get('VERIF_JOBS', '16')))
     ap.add_argument('--budget', type=float, default=float(os.environ.get('VERIF_BUDGET_S', '0')), help='stop generating after this many seconds (inconclusive, not a failure)')
     ap.add_argument('--no-evidence', action='store_true')
+    ap.add_argument('--no-regressions', action='store_true', help='experiments only: skip the regression replay tier')
     a = ap.parse_args(argv)
     prop = a.prop.upper()
     seed = int(os.environ.get('VERIF_SEED', '0') or 0)
@@ -552,7 +553,7 @@ def main(argv=None):
     regdir = os.path.join(ROOT, 'regressions', prop)
     n_reg = 0
     reg_samples = []
-    for fn in sorted(os.listdir(regdir)) if os.path.isdir(regdir) else []:
+    for fn in sorted(os.listdir(regdir)) if os.path.isdir(regdir) and not a.no_regressions else []:
         if not fn.endswith('.json'):
             continue
         path = os.path.join(regdir, fn)
